@@ -115,7 +115,110 @@ impl Report {
     r.counters
   }
 
+  /// Child mode (`GBMC_CHILD_OUT` set): this process is the re-run of a check in another build
+  /// profile; its result goes to that file for the parent to fold in, nothing else is written.
+  fn finish_child(self, out: &str) -> i32 {
+    let viol = J::Arr(self.violations.iter().map(|v| J::obj().set("key", J::s(v.key.as_str())).set("count", J::u(v.count)).set("detail", v.detail.clone())).collect());
+    let j = J::obj()
+      .set("evaluations", J::u(self.evaluations))
+      .set("distinct", J::u(self.distinct))
+      .set("exhaustive", J::Bool(self.exhaustive && self.capped.is_empty()))
+      .set("caps", J::Arr(self.capped.iter().map(|s| J::s(s.as_str())).collect()))
+      .set("stages", J::Arr(self.stages.clone()))
+      .set("violations", viol)
+      .set("machinery", J::Arr(self.machinery.iter().map(|m| J::s(m.as_str())).collect()))
+      .set("wall_s", J::Num(self.t0.elapsed().as_millis() as f64 / 1000.0));
+    if std::fs::write(out, j.to_string()).is_err() {
+      return 2;
+    }
+    if !self.machinery.is_empty() { 2 } else if !self.violations.is_empty() { 1 } else { 0 }
+  }
+
+  /// The whole check once more in the release-profile build of the harness (hooks on, but
+  /// opt-level 3, no overflow checks, no debug assertions): no property may depend on how the
+  /// emulator was compiled.  Folded in as one more stage.
+  fn release_profile_rerun(&mut self) {
+    let bin = match std::env::var("GBMC_NOJIT_REL_BIN") {
+      Ok(b) if !b.is_empty() => b,
+      _ => return,
+    };
+    let out = format!("{}/relprofile_{}.json", crate::util::pool::tmp_dir(), self.id);
+    let mut cmd = std::process::Command::new(&bin);
+    cmd.args(&[self.id, "quick"]).env("GBMC_CHILD_OUT", &out).env("GBMC_NOJIT_BIN", &bin).env_remove("GBMC_NOJIT_REL_BIN").env_remove("GBMC_REPLAY_KEY");
+    if let Ok(j) = std::env::var("GBMC_JIT_REL_BIN") {
+      cmd.env("GBMC_JIT_BIN", j);
+    }
+    let t = Instant::now();
+    let st = cmd.stdout(std::process::Stdio::null()).status();
+    match st {
+      Ok(s) if matches!(s.code(), Some(0) | Some(1) | Some(2)) => {},
+      Ok(s) => {
+        self.machinery.push(format!("release-profile rerun ended abnormally: {:?}", s));
+        return;
+      },
+      Err(e) => {
+        self.machinery.push(format!("cannot start release-profile rerun {}: {}", bin, e));
+        return;
+      },
+    }
+    let m = match std::fs::read_to_string(&out).map_err(|e| e.to_string()).and_then(|t| json::parse(&t)) {
+      Ok(m) => m,
+      Err(e) => {
+        self.machinery.push(format!("release-profile rerun left no result: {}", e));
+        return;
+      },
+    };
+    let _ = std::fs::remove_file(&out);
+    let ev = m.int_of("evaluations").max(0) as u64;
+    let di = m.int_of("distinct").max(0) as u64;
+    let mut nv = 0u64;
+    if let Some(vs) = m.get("violations").and_then(|v| v.as_arr()) {
+      for v in vs {
+        nv += 1;
+        let mut d = v.get("detail").cloned().unwrap_or(J::obj());
+        d.put("found_in", J::s("release-profile build of the harness (opt-level 3, no overflow checks, no debug assertions)"));
+        let key = v.str_of("key");
+        if let Some(e) = self.violations.iter_mut().find(|e| e.key == key) {
+          e.count += v.int_of("count").max(1) as u64;
+        } else {
+          self.violations.push(Violation { key, count: v.int_of("count").max(1) as u64, detail: d });
+        }
+      }
+    }
+    if let Some(ms) = m.get("machinery").and_then(|v| v.as_arr()) {
+      for x in ms {
+        self.machinery.push(format!("release-profile rerun: {}", x.as_str().unwrap_or("")));
+      }
+    }
+    if ev == 0 {
+      self.machinery.push("release-profile rerun reported no evaluations".to_string());
+    }
+    let nst = m.get("stages").and_then(|v| v.as_arr()).map(|a| a.len()).unwrap_or(0);
+    self.stages.push(
+      J::obj()
+        .set("stage", J::s("release-profile-rerun"))
+        .set("space", J::s(format!("the quick tier of this check once more, all {} stages, in a build of the harness with opt-level 3, overflow checks off and debug assertions off (hooks on)", nst)))
+        .set("cases", J::u(ev))
+        .set("cases_total", J::u(ev))
+        .set("distinct_outcome_classes", J::u(di))
+        .set("violation_keys", J::u(nv))
+        .set("wall_s", J::Num(t.elapsed().as_millis() as f64 / 1000.0)),
+    );
+    self.evaluations += ev;
+    if let Some(J::Bool(false)) = m.get("exhaustive") {
+      if let Some(cs) = m.get("caps").and_then(|v| v.as_arr()) {
+        for c in cs {
+          self.capped.push(format!("release-profile rerun: {}", c.as_str().unwrap_or("")));
+        }
+      }
+    }
+  }
+
   pub fn finish(mut self) -> i32 {
+    if let Ok(out) = std::env::var("GBMC_CHILD_OUT") {
+      return self.finish_child(&out);
+    }
+    self.release_profile_rerun();
     let root = verif_root();
     let wall = self.t0.elapsed().as_millis() as f64 / 1000.0;
     // known findings: lines `known: property=<id> key=<key> :: <what fails>` of known_findings.txt
